@@ -95,7 +95,19 @@ TwoSubsInit ==
                    Entry(<<"s1.k1">>, "in1", "k3", LinkD("in1", <<GoodSig("k3")>>, {}, Variant("A"))),
                    Entry(<<"s1.k2">>, "in1", "k3", LinkD("in1", <<GoodSig("k3")>>, {}, Variant("A")))>>, {})
 
-MCInit == (LatticeInit \/ MixInit \/ LookAlikeInit \/ TwoSubsInit) /\ VInitRest
+\* next to the properly named file of a functionary lies a STRAY one whose name merely resembles the pattern
+\* ("<step>.<id8>.link.link", "<step>..<id8>.link", ...), genuinely signed by the same functionary, with other
+\* content: it is no evidence (its eight-character field is not the id prefix), whatever order the directory
+\* lists its entries in
+StrayForms == {"linklink", "lead", "leadlinklink"}
+StrayInit ==
+  \E form \in StrayForms, proper \in {"A", "B"}, thr \in {1} :
+     LET stray == IF proper = "A" THEN "B" ELSE "A" IN
+     scn = Build(Layout(thr, "disallow_evil", FALSE), Own("o1"),
+                 <<Entry(<< >>, "s1", "k1", LinkD("s1", <<GoodSig("k1")>>, {}, Variant(proper))),
+                   Entry(<< >>, "s1", "k1:" \o form, LinkD("s1", <<GoodSig("k1")>>, {}, Variant(stray)))>>, {})
+
+MCInit == (LatticeInit \/ MixInit \/ LookAlikeInit \/ TwoSubsInit \/ StrayInit) /\ VInitRest
 
 
 MCSpec == MCInit /\ [][VNext]_vars
